@@ -240,7 +240,7 @@ def structural(source: str, stub: str, mode: str) -> list[dict]:
                         problems.append({"class": "kind-changed", "name": full, "from": "func", "to": got[0][0]})
                     continue
                 # overloads: source has n+1 (with implementation), stub n — every stub signature must equal a source one
-                ok = all(any(sig_matches(w, h) for w in want) for h in have)
+                ok = all(any(sig_matches(w, h, mode == "inspect") for w in want) for h in have)
                 if not ok:
                     d = sig_diff(want, have)
                     d.update({"name": full})
@@ -268,7 +268,16 @@ def structural(source: str, stub: str, mode: str) -> list[dict]:
     return problems
 
 
-def sig_matches(want: dict, have: dict) -> bool:
+def unqualify(a: str | None) -> str | None:
+    """`pkg.mod.C` → `C` (inspect mode prints classes by their fully qualified name and imports the module)."""
+    return None if a is None else re.sub(r"\b(?:[A-Za-z_]\w*\.)+([A-Za-z_]\w*)", r"\1", a)
+
+
+def sig_matches(want: dict, have: dict, loose: bool = False) -> bool:
+    if loose:
+        q = lambda d: {"params": [(n, k, dd, unqualify(a)) for n, k, dd, a in d["params"]], "ret": unqualify(d["ret"]),
+                       "async": d["async"]}
+        want, have = q(want), q(have)
     wp, hp = want["params"], have["params"]
     if len(wp) != len(hp) or want["async"] != have["async"]:
         return False
